@@ -8,6 +8,7 @@ import (
 	"strconv"
 	"strings"
 	"testing"
+	"time"
 
 	corev1 "k8s.io/api/core/v1"
 	"k8s.io/apimachinery/pkg/api/resource"
@@ -18,6 +19,7 @@ import (
 
 	apiext "github.com/koordinator-sh/koordinator/apis/extension"
 	schedulingv1alpha1 "github.com/koordinator-sh/koordinator/apis/scheduling/v1alpha1"
+	reservationutil "github.com/koordinator-sh/koordinator/pkg/util/reservation"
 )
 
 // C19 (device part) harness: one case = one history.
@@ -40,6 +42,11 @@ import (
 //     -> nodeDeviceCache.onPodDelete, the type switch), ~40 % wrapped in a
 //     cache.DeletedFinalStateUnknown passed by value; rarely a degenerate tombstone (Obj nil / of a
 //     wrong type) is delivered in addition and must be ignored.
+//   - stream:reservation-holder (~1/4 of the cases): some holders are Reservations (device-allocated
+//     annotation on the Reservation, the cache sees its reserve pod: name = uid = Reservation UID).  Their
+//     events go through the handler registerPodEventHandler registers on the Reservation informer
+//     (NewReservationToPodEventHandler(eventHandler, IsObjValidActiveReservation) = FilteringResourceEventHandler
+//     around ReservationToPodEventHandler around the pod handler).  To the model a Reservation holder is a pod.
 
 var c19Types = [3]schedulingv1alpha1.DeviceType{schedulingv1alpha1.GPU, schedulingv1alpha1.RDMA, schedulingv1alpha1.FPGA}
 var c19Res = [3][3]corev1.ResourceName{
@@ -88,6 +95,28 @@ func c19Handler(c *nodeDeviceCache) cache.ResourceEventHandlerFuncs {
 		UpdateFunc: c.onPodUpdate,
 		DeleteFunc: c.onPodDelete,
 	}
+}
+
+// c19Chain is the handler registerPodEventHandler registers on the Reservation informer.
+func c19Chain(c *nodeDeviceCache) cache.ResourceEventHandler {
+	return reservationutil.NewReservationToPodEventHandler(c19Handler(c), reservationutil.IsObjValidActiveReservation)
+}
+
+// c19ResvDeleteObj: the Reservation itself or (2/5) a cache.DeletedFinalStateUnknown by value holding it.
+func c19ResvDeleteObj(h *vHarness, r *vRand, resv *schedulingv1alpha1.Reservation) (obj interface{}, tombstone bool) {
+	if r.Chance(2, 5) {
+		h.Tag("del:tombstone:resv")
+		return cache.DeletedFinalStateUnknown{Key: resv.Name, Obj: resv}, true // cluster-scoped: key = name
+	}
+	h.Tag("del:plain:resv")
+	return resv, false
+}
+
+// c19World: the Reservation objects behind the holders that are Reservations.
+type c19World struct {
+	resv     map[int]*schedulingv1alpha1.Reservation // present: what the API server holds
+	goneResv map[int]*schedulingv1alpha1.Reservation // deleted before the cut: last active object
+	termResv map[int]*schedulingv1alpha1.Reservation // terminated before the cut: the inactive object still listed
 }
 
 // c19DeleteObj chooses the shape of a pod delete event: the pod itself or (about 40 %) a
@@ -156,6 +185,7 @@ type c19Item struct {
 }
 
 type c19PodDef struct {
+	isResv   bool // the holder is a Reservation; the cache sees its reserve pod
 	id, node int
 	items    []c19Item // grouped by ty ascending, slice order inside one ty
 	base     *corev1.Pod
@@ -523,6 +553,50 @@ func c19Persist(h *vHarness, p *c19PodDef) *corev1.Pod {
 	return obj
 }
 
+// c19PersistResv produces "what the API server holds" for a Reservation holder: an Available Reservation
+// scheduled on its node whose uid is the pod name the model knows (reserve pod name = uid), annotated by the
+// real SetDeviceAllocations iff it has an allocation; assigned=false gives the version before scheduling.
+func c19PersistResv(h *vHarness, p *c19PodDef, assigned bool) *schedulingv1alpha1.Reservation {
+	resv := &schedulingv1alpha1.Reservation{
+		ObjectMeta: metav1.ObjectMeta{Name: fmt.Sprintf("r%d", p.id), UID: types.UID(c19PodName(p.id))},
+		Spec: schedulingv1alpha1.ReservationSpec{
+			Template: &corev1.PodTemplateSpec{
+				ObjectMeta: metav1.ObjectMeta{Namespace: "default"},
+				Spec:       corev1.PodSpec{Containers: []corev1.Container{{Name: "c", Image: "i"}}},
+			},
+			Owners: []schedulingv1alpha1.ReservationOwner{{Object: &corev1.ObjectReference{Name: "owner"}}},
+			TTL:    &metav1.Duration{Duration: time.Hour},
+		},
+	}
+	if !assigned {
+		resv.Status.Phase = schedulingv1alpha1.ReservationPending
+		return resv
+	}
+	want := p.allocs()
+	if want != nil {
+		var err error
+		if h.Guard(func() { err = apiext.SetDeviceAllocations(resv, p.allocs()) }) || err != nil {
+			h.Fail("C19:dev-codec-roundtrip", "reservation %d: SetDeviceAllocations failed", p.id)
+		}
+	}
+	resv.Status.NodeName = c19NodeName(p.node)
+	resv.Status.Phase = schedulingv1alpha1.ReservationAvailable
+	var got apiext.DeviceAllocations
+	var err error
+	if h.Guard(func() { got, err = apiext.GetDeviceAllocations(resv.Annotations) }) || err != nil {
+		h.Fail("C19:dev-codec-roundtrip", "reservation %d: GetDeviceAllocations failed on what SetDeviceAllocations wrote", p.id)
+		return resv
+	}
+	if want == nil {
+		if len(got) != 0 {
+			h.Fail("C19:dev-codec-roundtrip", "reservation %d: %d types read from a reservation without allocation", p.id, len(got))
+		}
+	} else if d := c19AllocsDiff(want, got); d != "" {
+		h.Fail("C19:dev-codec-roundtrip", "reservation %d: %s", p.id, d)
+	}
+	return resv
+}
+
 // ---------- observation ----------
 
 type c19Snap struct {
@@ -753,9 +827,10 @@ func c19VFDiff(a, b map[[3]int]string) string {
 // ---------- replay ----------
 
 type c19Event struct {
-	upd bool
-	del bool // a stale delete event about a pod that does not survive
-	pod int
+	upd   bool
+	del   bool // a stale delete event about a pod that does not survive
+	inact bool // add of a terminated (inactive) Reservation that is still listed: filtered, no op line
+	pod   int
 }
 
 // c19Schedule: every survivor gets exactly one radd at a random position, plus with probability
@@ -804,10 +879,25 @@ func c19Schedule(h *vHarness, r *vRand, survivors []int) []c19Event {
 	return evs
 }
 
-func c19Replay(h *vHarness, r *vRand, inv *c19Inventory, apiServer map[int]*corev1.Pod, survivors []int, gone map[int]*corev1.Pod) *c19Snap {
+func c19Replay(h *vHarness, r *vRand, inv *c19Inventory, apiServer map[int]*corev1.Pod, survivors []int, gone map[int]*corev1.Pod, w *c19World) *c19Snap {
 	h.Op("dev fresh")
 	fresh := c19NewCache(h, inv)
 	evs := c19Schedule(h, r, survivors)
+	if len(w.termResv) > 0 {
+		ids := make([]int, 0, len(w.termResv))
+		for id := range w.termResv {
+			ids = append(ids, id)
+		}
+		sort.Ints(ids)
+		for _, id := range ids {
+			if r.Chance(1, 2) {
+				at := r.Intn(len(evs) + 1)
+				evs = append(evs, c19Event{})
+				copy(evs[at+1:], evs[at:])
+				evs[at] = c19Event{inact: true, pod: id}
+			}
+		}
+	}
 	if len(gone) > 0 && r.Chance(1, 4) {
 		// a delete event about a pod that was deleted before the cut reaches the new scheduler
 		ids := make([]int, 0, len(gone))
@@ -822,11 +912,40 @@ func c19Replay(h *vHarness, r *vRand, inv *c19Inventory, apiServer map[int]*core
 		h.Tag("replay-stale-del")
 	}
 	for _, e := range evs {
+		if e.inact {
+			// the initial list of the new scheduler contains the Succeeded / Failed Reservation: the filter drops it
+			h.Tag("resv:inactive")
+			if fresh != nil {
+				h.Guard(func() { c19Chain(fresh).OnAdd(w.termResv[e.pod].DeepCopy(), true) })
+			}
+			continue
+		}
 		if e.del {
-			obj, _ := c19DeleteObj(h, r, gone[e.pod].DeepCopy())
 			h.Op("dev rdel %d", e.pod)
+			if rv := w.goneResv[e.pod]; rv != nil {
+				obj, _ := c19ResvDeleteObj(h, r, rv.DeepCopy())
+				if fresh != nil {
+					h.Guard(func() { c19Chain(fresh).OnDelete(obj) })
+				}
+				continue
+			}
+			obj, _ := c19DeleteObj(h, r, gone[e.pod].DeepCopy())
 			if fresh != nil {
 				h.Guard(func() { c19Handler(fresh).OnDelete(obj) })
+			}
+			continue
+		}
+		if rv := w.resv[e.pod]; rv != nil {
+			if e.upd {
+				h.Op("dev rupd %d", e.pod)
+				if fresh != nil {
+					h.Guard(func() { c19Chain(fresh).OnUpdate(rv.DeepCopy(), rv.DeepCopy()) })
+				}
+			} else {
+				h.Op("dev radd %d", e.pod)
+				if fresh != nil {
+					h.Guard(func() { c19Chain(fresh).OnAdd(rv.DeepCopy(), true) })
+				}
 			}
 			continue
 		}
@@ -910,10 +1029,18 @@ func TestVerifC19Dev(t *testing.T) {
 			h.Op("%s", pods[id].opLine(inv.busIdx))
 		}
 		h.Tag(fmt.Sprintf("pods:%d", nPods))
+		w := &c19World{resv: map[int]*schedulingv1alpha1.Reservation{}, goneResv: map[int]*schedulingv1alpha1.Reservation{},
+			termResv: map[int]*schedulingv1alpha1.Reservation{}}
+		if r.Chance(1, 4) {
+			h.Tag("stream:reservation-holder")
+			for _, p := range pods {
+				p.isResv = r.Bool()
+			}
+		}
 
 		// 3. live history
 		live := c19NewCache(h, inv)
-		apiServer := map[int]*corev1.Pod{}
+		apiServer := map[int]*corev1.Pod{} // for a Reservation holder: its reserve pod (w.resv has the Reservation)
 		inSet := func(in bool) []int {
 			var out []int
 			for id := 0; id < nPods; id++ {
@@ -947,10 +1074,17 @@ func TestVerifC19Dev(t *testing.T) {
 			if live != nil && len(present) > 0 && r.Chance(1, 10) {
 				// degenerate tombstone about a pod the cache holds: must be ignored, ledger unchanged
 				h.Tag("del:tombstone-badobj")
-				victim := apiServer[present[r.Intn(len(present))]].DeepCopy()
+				vid := present[r.Intn(len(present))]
+				victim := apiServer[vid].DeepCopy()
 				bad := c19BadTombstone(r, victim)
 				before := c19Observe(h, live, inv, false)
-				if h.Guard(func() { c19Handler(live).OnDelete(bad) }) {
+				if h.Guard(func() {
+					if pods[vid].isResv {
+						c19Chain(live).OnDelete(bad) // dropped by the filter or by the adapter's type switch
+					} else {
+						c19Handler(live).OnDelete(bad)
+					}
+				}) {
 					h.Fail("C19:dev-tombstone-badobj", "a tombstone whose Obj is not a *Pod made the delete handler panic")
 				} else if d := c19FirstDiff(before.lines, c19Observe(h, live, inv, false).lines); d != "" {
 					h.Fail("C19:dev-tombstone-badobj", "a tombstone whose Obj is not a *Pod changed the ledger: %s", d)
@@ -1013,17 +1147,40 @@ func TestVerifC19Dev(t *testing.T) {
 				h.Tag(fmt.Sprintf("add-via:%d", via))
 				h.Op("dev add %d %d", target, via)
 				p := pods[target]
-				obj := c19Persist(h, p)
-				panicked = live == nil || h.Guard(func() {
-					switch via {
-					case 0:
-						cacheUsed(p, true)
-					case 1:
-						live.onPodAdd(obj.DeepCopy())
-					default:
-						live.onPodUpdate(p.base.DeepCopy(), obj.DeepCopy())
+				var obj *corev1.Pod
+				if p.isResv {
+					rv := c19PersistResv(h, p, true)
+					h.Guard(func() { obj = reservationutil.NewReservePod(rv) })
+					if obj == nil || obj.Name != c19PodName(p.id) || obj.Namespace != "default" || obj.Spec.NodeName != c19NodeName(p.node) {
+						h.Fail("C19:dev-harness-reserve-pod", "reserve pod of reservation %d is not default/%s on %s", p.id, c19PodName(p.id), c19NodeName(p.node))
+						obj = c19Persist(h, p)
 					}
-				})
+					w.resv[target] = rv
+					delete(w.goneResv, target)
+					delete(w.termResv, target)
+					panicked = live == nil || h.Guard(func() {
+						switch via {
+						case 0:
+							cacheUsed(p, true) // Reserve of the reserve pod
+						case 1:
+							c19Chain(live).OnAdd(rv.DeepCopy(), false)
+						default: // Pending (filtered) -> Available: the filter turns the update into an add
+							c19Chain(live).OnUpdate(c19PersistResv(h, p, false), rv.DeepCopy())
+						}
+					})
+				} else {
+					obj = c19Persist(h, p)
+					panicked = live == nil || h.Guard(func() {
+						switch via {
+						case 0:
+							cacheUsed(p, true)
+						case 1:
+							live.onPodAdd(obj.DeepCopy())
+						default:
+							live.onPodUpdate(p.base.DeepCopy(), obj.DeepCopy())
+						}
+					})
+				}
 				apiServer[target] = obj
 			case 1:
 				var target int
@@ -1039,10 +1196,22 @@ func TestVerifC19Dev(t *testing.T) {
 				// via 0 = Unreserve-like, 2 = update to a terminated pod, 1 / 3 = pod delete event through the
 				// registered handler (1 = the pod, 3 = a DeletedFinalStateUnknown by value)
 				via := r.Intn(4)
+				p := pods[target]
+				var rv *schedulingv1alpha1.Reservation // the holder is a Reservation: the object the events carry
+				if p.isResv {
+					if rv = w.resv[target]; rv == nil {
+						rv = c19PersistResv(h, p, true)
+					}
+					rv = rv.DeepCopy()
+				}
 				var delObj interface{}
 				if via == 1 || via == 3 {
 					var tomb bool
-					delObj, tomb = c19DeleteObj(h, r, obj)
+					if rv != nil {
+						delObj, tomb = c19ResvDeleteObj(h, r, rv)
+					} else {
+						delObj, tomb = c19DeleteObj(h, r, obj)
+					}
 					via = 1
 					if tomb {
 						via = 3
@@ -1050,19 +1219,40 @@ func TestVerifC19Dev(t *testing.T) {
 				}
 				h.Tag(fmt.Sprintf("del-via:%d", via))
 				h.Op("dev del %d %d", target, via)
-				p := pods[target]
+				var doneResv *schedulingv1alpha1.Reservation
 				panicked = live == nil || h.Guard(func() {
-					switch via {
-					case 0:
+					switch {
+					case via == 0:
 						cacheUsed(p, false)
-					case 2:
+					case via == 2 && rv != nil:
+						// Available -> Succeeded / Failed: the new object is inactive, IsObjValidActiveReservation
+						// filters it and FilteringResourceEventHandler turns the update into OnDelete(old)
+						h.Tag("resv:inactive")
+						doneResv = rv.DeepCopy()
+						doneResv.Status.Phase = schedulingv1alpha1.ReservationSucceeded
+						if r.Bool() {
+							doneResv.Status.Phase = schedulingv1alpha1.ReservationFailed
+						}
+						c19Chain(live).OnUpdate(rv, doneResv.DeepCopy())
+					case via == 2:
 						done := obj.DeepCopy()
 						done.Status.Phase = corev1.PodSucceeded
 						live.onPodUpdate(obj, done)
+					case rv != nil:
+						c19Chain(live).OnDelete(delObj)
 					default:
 						c19Handler(live).OnDelete(delObj)
 					}
 				})
+				if rv != nil {
+					if _, was := apiServer[target]; was {
+						w.goneResv[target] = rv.DeepCopy()
+						if doneResv != nil {
+							w.termResv[target] = doneResv
+						}
+					}
+					delete(w.resv, target)
+				}
 				if _, was := apiServer[target]; was {
 					gone[target] = obj.DeepCopy()
 					_, norm, _ := p.vfHeld()
@@ -1081,7 +1271,17 @@ func TestVerifC19Dev(t *testing.T) {
 					cur.Labels = map[string]string{}
 				}
 				cur.Labels["verif/step"] = strconv.Itoa(step)
-				panicked = live == nil || h.Guard(func() { live.onPodUpdate(old, cur) })
+				if rv := w.resv[target]; rv != nil {
+					curResv := rv.DeepCopy()
+					if curResv.Labels == nil {
+						curResv.Labels = map[string]string{}
+					}
+					curResv.Labels["verif/step"] = strconv.Itoa(step)
+					panicked = live == nil || h.Guard(func() { c19Chain(live).OnUpdate(rv.DeepCopy(), curResv.DeepCopy()) })
+					w.resv[target] = curResv
+				} else {
+					panicked = live == nil || h.Guard(func() { live.onPodUpdate(old, cur) })
+				}
 			}
 			if panicked {
 				h.Obs("panic")
@@ -1143,8 +1343,8 @@ func TestVerifC19Dev(t *testing.T) {
 		}
 
 		// 4. replay into a fresh cache, twice
-		fresh1 := c19Replay(h, r, inv, apiServer, survivors, gone)
-		fresh2 := c19Replay(h, r, inv, apiServer, survivors, gone)
+		fresh1 := c19Replay(h, r, inv, apiServer, survivors, gone, w)
+		fresh2 := c19Replay(h, r, inv, apiServer, survivors, gone, w)
 
 		// oracle (ii): the rebuilt state equals the live state at the cut (the VF part has its own clause)
 		if d := c19FirstDiff(c19NonVF(liveSnap.lines), c19NonVF(fresh1.lines)); d != "" {
@@ -1233,6 +1433,8 @@ func TestVerifC19Dev(t *testing.T) {
 		"RDMA VFs drawn from a pool of 4 bus ids per (node, minor) so that VFs are reused after a delete but never held by two present pods, rare duplicate bus id), " +
 		"a live history of 3-12 add/del/upd ops through updateCacheUsed and the pod informer handlers (duplicate adds, deletes of absent pods, " +
 		"delete events through ResourceEventHandlerFuncs.OnDelete ~40% as DeletedFinalStateUnknown by value, rare degenerate tombstones that must be ignored), " +
+		"~1/4 of the cases with Reservation holders whose add / update / delete (2/5 tombstones) / Available->Succeeded|Failed update / inactive add go through " +
+		"NewReservationToPodEventHandler(podHandler, IsObjValidActiveReservation) as registerPodEventHandler builds it (to the model the reserve pod is a pod), " +
 		"then two shuffled replays of the surviving annotated pods (duplicate adds, same-allocation updates, update-before-add, rare stale delete of a gone pod) into fresh caches; " +
 		"oracle: annotation codec round trip, rebuilt == live (ledger and VFs), nothing held is free / no held VF unrecorded, replay order irrelevant, VF-theorem hypotheses hold. " +
 		"non-trivial = at least two survivors hold an item on the same (node,type,minor) or the survivors together cover at least two device types")
